@@ -14,7 +14,7 @@ import json
 import os
 
 from . import common, explore, srv, srv_alpha, srv_check, tlc
-from . import cli, cli_alpha, simple
+from . import cli, cli_alpha, simple, threads
 from .tla_lit import lit
 
 BASE_INV = ['TypeOK']
@@ -64,7 +64,8 @@ PLAN = {
 }
 
 WITNESS = {'D6': 'D6_NotObservable', 'D3': 'D3_NotTaken',
-           'D5': 'D5_NotObservable', 'D9': 'D9_NotObservable'}
+           'D5': 'D5_NotObservable', 'D9': 'D9_NotObservable',
+           'D7': 'D7_NotTaken'}
 
 PLAN.update({
     'C08': {
@@ -73,6 +74,15 @@ PLAN.update({
                 'C08_BadNamespace', 'C08_HandlersOnce'],
         'quick': ['cstate_quick'],
         'thorough': ['cstate_fn', 'cstate_class'],
+    },
+    'C20': {
+        'fam': 'threads',
+        'inv': ['C20_HandlerAtMostOnce', 'C20_HandlerExactlyOnce',
+                'C20_NoThreadRaises', 'C20_CleanAfterwards'],
+        'quick': ['thr_api+rxdisc_al', 'thr_api+lost_by',
+                  'thr_rxdisc+lost_al_2ns', 'thr_api+api_al',
+                  'thr_api_other+lost_al_2ns'],
+        'thorough': list(threads.CONFIGS),
     },
     'C19': {
         'fam': 'simple',
@@ -117,7 +127,30 @@ def _simple_consts(cfg):
             'Conn': list(cfg['conn']), 'Dev': set(cfg.get('dev', []))}
 
 
+class _ThreadsAlpha:
+    @staticmethod
+    def sched(cfg):
+        return threads.alphabet(cfg)
+
+    @staticmethod
+    def enabled(cfg):
+        return threads.enabled
+
+
+def _threads_consts(cfg):
+    return {'Ops': list(cfg['ops']), 'TwoNs': bool(cfg.get('two_ns')),
+            'Bystander': bool(cfg.get('bystander')),
+            'Dev': set(cfg.get('dev', []))}
+
+
 FAMILIES = {
+    'threads': dict(spec='SrvDisconnectThreads',
+                    graph='SrvDisconnectThreadsGraph',
+                    configs={k: dict(v, alpha='sched')
+                             for k, v in threads.CONFIGS.items()},
+                    alpha=_ThreadsAlpha, consts=_threads_consts,
+                    adapter=lambda c: threads.ThreadsAdapter(c),
+                    no_alphabet=True, variants=('threaded',), base_inv=[]),
     'simple': dict(spec='SimpleClient', graph='SimpleClientGraph',
                    configs={k: dict(v, alpha='sched', dev=['D9'])
                             for k, v in simple.CONFIGS.items()},
